@@ -2,6 +2,7 @@ package props
 
 import (
 	"fmt"
+	"strings"
 	"time"
 
 	ws "github.com/gorilla/websocket"
@@ -116,7 +117,7 @@ func c09One(ctx *core.Ctx, out *core.Out, cfg Cfg, prog []WStep, desc rtCase, ph
 	}
 	sendClose := func() {
 		openAtClose = w.HasOpen() || w.pendingOpen
-		body := ws.FormatCloseMessage(1000, "x")
+		body := ws.FormatCloseMessage(1000, strings.Repeat("x", []int{1, 40, 123}[(pos+path)%3]))
 		switch path {
 		case cpWriteControl:
 			closeErr = c.WriteControl(ws.CloseMessage, body, time.Time{})
